@@ -45,7 +45,7 @@ Section DigestThm.
   Proof.
     rewrite digest_auth_fst. intro R.
     destruct (digest_pure_cases H get_ha1 dec_accept parse_params c header m now)
-      as [[a [ts [l [C [F E]]]]]|[[a [ts [l [C [F E]]]]]|[[_ E]|[[_ E]|[[_ [w [_ E]]]|[_ E]]]]]];
+      as [[a [ts [l [C [F E]]]]]|[[a [ts [l [C [F E]]]]]|[[_ E]|[[_ E]|[[_ E]|[_ E]]]]]];
       rewrite E in R; try discriminate.
     inversion R; subst. exists a, ts. split; assumption.
   Qed.
@@ -61,22 +61,28 @@ Section DigestThm.
     - destruct (cv_unique _ _ _ _ _ _ _ _ _ C C') as [_ [Et _]]. subst ts'.
       exfalso. exact (fresh_not_expired _ _ F F').
     - exfalso. exact (N _ _ _ C).
+    - exfalso. destruct C as [h [ha1 [Eh [P [_ [_ [_ [Q _]]]]]]]]. subst header. cbn [oval] in N.
+      destruct N as [N|[a' [P' Q']]]; [exact (N _ P)|].
+      apply parse_header_inl in P. apply parse_header_inl in P'.
+      assert (a' = a) by congruence. subst a'.
+      destruct Q as [Q|Q]; rewrite Q in Q'; discriminate.
     - exfalso. destruct C as [h [ha1 [Eh [P _]]]]. subst header. exact (N _ P).
-    - exfalso. exact (N _ _ _ (conj C F)).
     - exfalso. exact (N _ _ _ (conj C F)).
   Qed.
 
   Lemma thm_digest_reject c header m now o :
     fst (run c header m now) = o -> (forall login, o <> Reached login) ->
-    (o = R400 /\ forall a, ~ header_parses dec_accept parse_params (oval header) m a)
+    (o = R400 /\ ((forall a, ~ header_parses dec_accept parse_params (oval header) m a)
+                  \/ exists a, header_parses dec_accept parse_params (oval header) m a
+                               /\ a_qop a = Some s_auth_int))
     \/ (exists stale, o = R401 (digest_challenge H c now stale)
                       /\ (stale = true <-> exists a ts login, CV c header m a ts login /\ nonce_expired ts now))
-    \/ (exists w, o = R500 w /\ (w = 1 \/ w = 2 \/ w = 3))
+    \/ (o = R500 3 /\ forall a, ~ header_parses dec_accept parse_params (oval header) m a)
     \/ o = Unsupported 1.
   Proof.
     rewrite digest_auth_fst. intros R NR.
     destruct (digest_pure_cases H get_ha1 dec_accept parse_params c header m now)
-      as [[a [ts [l [C [F E]]]]]|[[a [ts [l [C [F E]]]]]|[[N E]|[[N E]|[[_ [w [W E]]]|[_ E]]]]]];
+      as [[a [ts [l [C [F E]]]]]|[[a [ts [l [C [F E]]]]]|[[N E]|[[N E]|[[N E]|[_ E]]]]]];
       rewrite E in R; subst o.
     - exfalso. exact (NR l eq_refl).
     - right. left. exists true. split; [reflexivity|]. split; [|reflexivity].
@@ -84,7 +90,7 @@ Section DigestThm.
     - right. left. exists false. split; [reflexivity|]. split; [discriminate|].
       intros [a [ts [l [C _]]]]. exfalso. exact (N _ _ _ C).
     - left. split; [reflexivity | exact N].
-    - right. right. left. exists w. split; [reflexivity | exact W].
+    - right. right. left. split; [reflexivity | exact N].
     - right. right. right. reflexivity.
   Qed.
 
